@@ -136,6 +136,14 @@ PROPS = {
         trusted=COMMON_TRUST + ["verif hooks http/export_verif.go, fuse/export_verif.go"],
         assumptions=["FUSE clauses are stated for sane tables (valid components, distinct paths, no path a proper prefix of another); component validity is enforced by MetadataComplete (fix 0cad2f2)"],
     ),
+    "C17": dict(
+        level_text="A translator (harness/cmd/genapi, go/ast) extracts from /repo/tor/*.go on every run, for every exported operation of Torrent and Reader, the blocking channel operations in order with the alternatives of every select (Gen/TorApi.v). Model/Lifecycle.v gives them a semantics against the event loop, which takes queued events in order, answers them and may stop at any moment. Theorems: c17_no_call_hangs - for every extracted operation, with or without room in the event queue, with the loop running or already stopped, under every interleaving of the loop's steps with the call's, no reachable configuration has the loop stopped and the call blocked (proved by an exhaustive exploration whose soundness for arbitrary programs is c17_explorer_sound); c17_apis_present - the 17 operations were found. A call written without the Done alternative makes the theorem fail (bare_reply_refuted is the shape Torrent.Request had). Tie for the runtime part: scenarios on a torrent running its real main loop with real peers, a verified piece and a blocked reader: all 16 operations issued after the loop has stopped, concurrently with Kill, and queued behind the deletion in a stalled loop (also with 30-45 peers and ~500 events of backlog); each must return within 5 s; afterwards the torrent is unlisted, every peer connection closed, the reader failed, memory and goroutines back to the baseline.",
+        level_note="The translator flattens control flow (if/for bodies are taken in order) and does not follow calls (Reader.Read's use of Torrent.Request appears as the two separate entries). 'Deletion is complete' is observed, not proved. The loop's handlers are assumed to answer every event they take.",
+        harness="swarm", args=["-prop", "C17"], check_module="LifecycleCheck",
+        n_quick=40, n_thorough=400,
+        trusted=COMMON_TRUST + ["genapi translator (Go source -> Gen/TorApi.v), re-run on every check", "runtime.NumGoroutine and alloc.Bytes as process-wide observations (cases run one at a time)"],
+        assumptions=["a handler that takes an event answers it"],
+    ),
     "C19": dict(
         level_text="Model/HttpUI.v specifies the Host check in front of every handler and the escaping functions applied where attacker-controlled strings enter pages and playlists. Theorems over all strings: a host that is neither localhost nor an IP literal is refused, and DNS names are never IP literals (c19_local_only, c19_dns_names_are_not_ip_literals); HTML-escaped text contains no tag/attribute delimiter (c19_html_escaped); path-escaped text contains no delimiter, whitespace or control byte (c19_url_escaped); playlist titles contain no line break (c19_playlist_lines). Tie: 24 Host headers x 15 (route, method) pairs on the real mux with a running torrent (status and state change), and 100 torrents built from hostile strings (name, path, tracker URL and error text via an injected tracker, web-seed URL, peer version) rendered on the root, directory, peers and playlist pages: raw occurrences of a hostile string are violations; html.EscapeString/url.PathEscape compared with the model on every string.",
         level_note="That every handler calls checkLocal first and that every output site applies an escaping function is established by the sweep (every route x method x host; every attacker-controlled field on every page), not by a theorem over the page renderers; net.SplitHostPort/ParseIP are specified on the generated shapes. The Host header echoed inside the registerProtocolHandler script is not covered (only IP literals/localhost reach it).",
